@@ -154,7 +154,7 @@ func init() {
 	}
 	propConfigs["C08"] = &propConfig{
 		level:   "other",
-		explain: "Deductive part: (i) bdsRound, bdsTreeHashUpdate, treeHashSetup and initializeTree carry `pure` contracts (result and final state are a function of the arguments; bdsRound/bdsTreeHashUpdate depend on the address argument only through addr[0:3]) discharged by the effects back end on go/ssa, with assigns clauses confining their writes to the traversal state; (ii) lemma function verifLemmaUpdateToCurrentIsIdentity: a jump to the current index changes neither sk nor any traversal buffer; (iii) the index/seed part of the state (sk) evolves identically on the signing and the fast-forward path (C02 contracts). The product-program lemma 'one Sign step == one fast-forward step on the whole traversal state' (verifLemmaSignStepEqualsUpdateStep) is written and well-formed but the solvers do not decide it within the limits; it is NOT claimed. Bounded stand-in for it (labelled bounded): with the real hash functions, for every index of the listed small heights and all three hash functions, the complete state (sk, stack, levels, auth, keep, retain, every treehash instance) reached by signing equals the state reached by one jump and by two jumps on a fresh key, and the next signatures are byte-identical.",
+		explain: "Deductive part: (i) bdsRound, bdsTreeHashUpdate, treeHashSetup and initializeTree carry `pure` contracts (result and final state are a function of the arguments; bdsRound/bdsTreeHashUpdate depend on the address argument only through addr[0:3]) discharged by the effects back end on go/ssa, with assigns clauses confining their writes to the traversal state; (ii) lemma function verifLemmaUpdateToCurrentIsIdentity: a jump to the current index changes neither sk nor any traversal buffer; (iii) the index/seed part of the state (sk) evolves identically on the signing and the fast-forward path (C02 contracts); (iv) ghost call counters and anchored assertions: Sign performs exactly one pair bdsRound(idx), bdsTreeHashUpdate (exactly when idx < 2^h-1), a jump performs exactly newIdx-idx such pairs at leaves idx, idx+1, ..., in lockstep, and at both call sites the seeds and address words passed are the same functions of the secret key fields. The product-program lemma 'one Sign step == one fast-forward step on the whole traversal state' (verifLemmaSignStepEqualsUpdateStep) is written and well-formed but the solvers do not decide it within the limits; it is NOT claimed. Bounded stand-in for it (labelled bounded): with the real hash functions, for every index of the listed small heights and all three hash functions, the complete state (sk, stack, levels, auth, keep, retain, every treehash instance) reached by signing equals the state reached by one jump and by two jumps on a fresh key, and the next signatures are byte-identical.",
 		extras: func(e *Engine, tier string, seed int) []ExtraResult {
 			hs := []int{4}
 			if tier == "thorough" {
